@@ -240,6 +240,16 @@ func VH19b_resize() {
 		}
 		verif.Reach("resize-with-context")
 	}
+	// optionally a sender is waiting as well when the option changes: short send queues, stalled peer
+	senderWaiting := verif.Choice("sender-waiting", 2) == 1
+	if senderWaiting {
+		if rx != rcvopt(sock) {
+			verif.Assume(false) // kept to the socket API
+		}
+		if sock.SetOption(mangos.OptionWriteQLen, 1) != nil {
+			verif.Assume(false)
+		}
+	}
 	side := vt.Listen(sock, "a")
 	p1 := side.Peer("p1")
 	opt := []string{mangos.OptionReadQLen, mangos.OptionWriteQLen}[verif.Choice("which", 2)]
@@ -269,8 +279,73 @@ func VH19b_resize() {
 		g0 = verif.Go("recv0", func() { rx.RecvMsg() })
 		verif.Quiesce()
 	}
+	var blocked *verif.G
+	var route []byte
+	if senderWaiting {
+		if proto == "xrep" || proto == "xrespondent" {
+			p1.Deliver(wireIn(proto, 'r'))
+			verif.Quiesce()
+			if rm, rerr := sock.RecvMsg(); rerr == nil {
+				route = append(route, rm.Header...)
+				rm.Free()
+			}
+		}
+		p1.SendMode = vt.SendBlock
+		for i := 0; i < 5 && blocked == nil; i++ {
+			if proto == "rep" || proto == "respondent" {
+				p1.Deliver(wireIn(proto, byte('k'+i)))
+				verif.Quiesce()
+				if _, rerr := sock.RecvMsg(); rerr != nil {
+					break
+				}
+			}
+			sm := mangos.NewMessage(2)
+			sm.Body = append(sm.Body, 'S', byte('0'+i))
+			sm.Header = append(sm.Header, route...)
+			switch proto {
+			case "xpair1", "xstar":
+				sm.Header = append(sm.Header, 0, 0, 0, 0)
+			case "xreq", "xsurveyor":
+				sm.Header = append(sm.Header, 0x80, 0, 0, 1)
+			}
+			gs := verif.Go("send", func() {
+				if sock.SendMsg(sm) != nil {
+					sm.Free()
+				}
+			})
+			verif.Quiesce()
+			if !gs.Done() {
+				blocked = gs
+			}
+		}
+		if blocked == nil {
+			verif.Assume(false) // this pattern never makes a sender wait
+		}
+		verif.Reach("resize-with-a-waiting-sender")
+	}
 	err := optOn.SetOption(opt, v)
 	verif.Quiesce()
+	if senderWaiting {
+		// the peer reads again: the waiting Send ends (delivered, or dropped by a send-queue resize), and what
+		// the peer gets are messages that were sent - whole, each at most once
+		p1.SendMode = vt.SendOK
+		for i := 0; i < 8; i++ {
+			p1.Release()
+		}
+		verif.Quiesce()
+		verif.Assert(blocked.Done(), lab+"/"+opt+"/sender-still-waiting-after-the-peer-reads-again")
+		seen := map[byte]int{}
+		for _, r := range p1.Sent {
+			if len(r.B) == 2 && r.B[0] == 'S' {
+				seen[r.B[1]]++
+			} else if len(r.B) > 0 && r.B[0] == 'S' {
+				verif.Fail(lab + "/" + opt + "/message-on-the-wire-is-not-one-that-was-sent")
+			}
+		}
+		for _, n := range seen {
+			verif.Assert(n == 1, lab+"/"+opt+"/message-on-the-wire-twice")
+		}
+	}
 	if err != nil {
 		verif.Assert(err == mangos.ErrBadOption, lab+"/qlen-in-range-rejected")
 		return
